@@ -3,6 +3,7 @@ import json
 import os
 import re
 
+from rules import c05
 from gsa import facts, ir, paths
 from gsa.facts import Unit, rel, AnalysisBroken
 from gsa.report import Check
@@ -366,6 +367,95 @@ def run_mirror(chk, F):
            key='E7b|Base_swap::swap_rows|mirror')
 
 
+def run_swap_dictionaries(chk, F):
+    """E2-swap-dictionaries: the lazy row swaps keep two dictionaries, row -> slot (indexToRow_) and slot -> row
+    (rowToIndex_), inverse of each other: on every path of every function of the base / boundary matrices and of
+    Base_swap the net number of keys added to one (push_back, emplace, `d[k] = ..` on a map, minus erase) equals the net
+    number added to the other. A function that clears one rebuilds it from the other in a loop over it."""
+    files = ('Base_matrix.h', 'Boundary_matrix.h', 'base_swap.h')
+    D = ('indexToRow_', 'rowToIndex_')
+
+    def dict_of(e):
+        e = ir.skipcasts(e)
+        while e is not None:
+            if e.get('k') in ir.MEMBER_KINDS + ('DeclRefExpr', 'DependentScopeDeclRefExpr') and e.get('n') in D:
+                return e['n']
+            if e.get('k') in ir.MEMBER_KINDS and e.get('c'):
+                return None
+            return None
+        return None
+
+    n = 0
+    for f in F.functions:
+        if f.get('inst') not in (0, 2) or f.get('body') is None or f['file'].split('/')[-1] not in files:
+            continue
+        if f['kind'] in ('ctor', 'copy_ctor', 'move_ctor', 'default_ctor', 'dtor'):
+            continue
+        if not ir.contains(f['body'], lambda y: y.get('n') in D):
+            continue
+        in_map_arm = set()
+        for x in ir.walk(f['body']):
+            if x.get('k') == 'IfStmt' and 'has_map_column_container' in ir.show(x.get('cond')):
+                for y in ir.walk(x.get('then')):
+                    in_map_arm.add(id(y))
+
+        def cl(x):
+            if ir.is_call(x) and ir.call_name(x) in ('push_back', 'emplace', 'try_emplace', 'emplace_back', 'insert',
+                                                     'erase', 'clear'):
+                d = dict_of(ir.call_receiver(x))
+                if d:
+                    nm = ir.call_name(x)
+                    return [('-' if nm == 'erase' else '0' if nm == 'clear' else '+') + d]
+            t = ir.write_target(x)
+            if t is not None and x.get('op') == '=' and id(x) in in_map_arm:
+                tt = ir.skipcasts(t)
+                if tt is not None and (tt.get('k') == 'ArraySubscriptExpr' or
+                                       (ir.is_call(tt) and tt.get('op') == '[]')):
+                    base = (tt.get('c') or [None])[0] if tt.get('k') == 'ArraySubscriptExpr' else ir.call_args(tt)[0]
+                    d = dict_of(base)
+                    if d:
+                        return ['+' + d]      # operator[] of a map dictionary adds the key
+            return []
+        ps = paths.enumerate_paths(f, cl, loop_mode='01', cap=20000)
+        bad = None
+        np_ = 0
+        rebuilt = None
+        for p in ps:
+            if p.end == 'throw':
+                continue
+            tags = p.tags()
+            if not tags:
+                continue
+            np_ += 1
+            if any(t.startswith('0') for t in tags):
+                if rebuilt is None:
+                    rebuilt = {}
+                    for x in ir.walk(f['body']):
+                        if x.get('k') == 'CXXForRangeStmt':
+                            src = dict_of(x.get('range'))
+                            for y in ir.walk(x.get('body')):
+                                if ir.is_call(y) and ir.call_name(y) in ('emplace', 'try_emplace'):
+                                    dst = dict_of(ir.call_receiver(y))
+                                    if src and dst and src != dst:
+                                        rebuilt[dst] = src
+                for t in tags:
+                    if t.startswith('0') and t[1:] not in rebuilt and bad is None:
+                        bad = '%s is cleared and not rebuilt from the other dictionary' % t[1:]
+                continue
+            net = {d: tags.count('+' + d) - tags.count('-' + d) for d in D}
+            if net[D[0]] != net[D[1]] and bad is None:
+                bad = 'a path changes the number of keys of indexToRow_ by %+d and of rowToIndex_ by %+d' % (
+                    net[D[0]], net[D[1]])
+        if np_ == 0:
+            continue
+        n += 1
+        owner = f.get('clsname') or '-'
+        chk.ob('E2-swap-dictionaries', '%s::%s keeps the two dictionaries of the lazy row swaps on the same keys '
+               '(%d paths)' % (owner, f['name'], np_), '%s:%d' % (rel(f['file']), f['line']), bad is None, bad or '',
+               key='E2|%s::%s|swap-dictionaries' % (owner, f['name']))
+    chk.expect_count('E2-swap-dictionaries', 'functions changing the swap dictionaries', n, 5)
+
+
 def run(tier, replay=None):
     chk = Check('C09', tier,
                 'Static decision of structural clauses of the column classes behind "a general matrix behaves as a '
@@ -388,7 +478,10 @@ def run(tier, replay=None):
     run_signatures(chk, F)
     run_aliasing(chk, F)
     run_entry_order(chk, F)
-    chk.assumptions += ['clang 14 parser; template patterns', 'tables/c09.json']
+    run_assert_purity(chk, F)
+    run_swap_dictionaries(chk, F)
+    c05.run_row_kinds(chk, F, only=('base_swap.h',), floor=8)
+    chk.assumptions += ['clang 14 parser; template patterns', 'tables/c09.json', 'tables/c05.json']
     return chk
 
 
@@ -778,3 +871,48 @@ def run_entry_order(chk, F):
                 chk.ob('E9-entry-order', '%s::%s: std::%s over %s uses the strict order of the row indices'
                        % (cn, f['name'], ir.call_name(x), rng), where, ok, detail, key=key)
     chk.expect_count('E9-entry-order', 'ordering algorithms over entry-pointer containers', n, 8)
+
+
+# ------------------------------------------------------------------ R13 assertions do not carry behaviour (E6b)
+
+def run_assert_purity(chk, F, by=None, min_count=8):
+    """R13: GUDHI_CHECK / assert vanish in release builds (NDEBUG), so their conditions must not do anything the
+    function relies on: no call, on *this or on a member, of a member function that is not const (the analysis parses
+    the headers with assertions enabled; the two configurations behave alike only if the condition is pure).
+    Found: Vector_column::push_back flushed its lazily erased entries only through get_pivot() inside a GUDHI_CHECK."""
+    by = general_matrix_classes(F) if by is None else by
+    nonconst = {}
+    for c in F.classes:
+        if c.get('inst') not in (0, 2):
+            continue
+        for m in c.get('methods', []):
+            if m.get('kind') in ('method',) and not m.get('static'):
+                nonconst.setdefault((c['name'], m['n']), []).append(not m.get('const'))
+    n = 0
+    for cq, fns in sorted(by.items()):
+        cname = cq.split('::')[-1]
+        for f in fns:
+            for x in ir.walk(f['body']):
+                if x.get('k') != 'ConditionalOperator' or len(x.get('c') or []) != 3:
+                    continue
+                arms = x['c'][1:]
+                if not any(ir.contains(a, lambda y: y.get('k') == 'CXXThrowExpr' or
+                                       (ir.is_call(y) and ir.call_name(y) == '__assert_fail')) for a in arms):
+                    continue
+                n += 1
+                bad = None
+                for y in ir.walk(x['c'][0]):
+                    if ir.is_call(y) and ir.is_this_call(y) and y.get('k') != 'CXXOperatorCallExpr':
+                        flags = nonconst.get((cname, ir.call_name(y)))
+                        if flags and all(flags) and bad is None and \
+                                '%s::%s' % (cname, ir.call_name(y)) not in TABLE.get('assert_side_effects_ok', {}):
+                            bad = y
+                    if ir.write_target(y) is not None and bad is None:
+                        bad = y
+                if bad is not None or True:
+                    chk.ob('E6b-assert-pure', '%s::%s line %s: the checked condition has no side effect' %
+                           (cname, f['name'], x.get('l')), '%s:%s' % (rel(f['file']), x.get('l')), bad is None,
+                           '' if bad is None else '`%s` is not a const member function (or writes): with NDEBUG the '
+                           'check and its side effect disappear, the release build behaves differently' %
+                           ir.show(bad)[:80], key='E6b|%s::%s|assert|%s' % (cname, f['name'], ir.show(x['c'][0])[:50]))
+    chk.expect_count('E6b-assert-pure', 'checked conditions', n, min_count)
